@@ -631,6 +631,9 @@ type ConnidsVerifView struct {
 	Now               int64 // monotime.Now()
 }
 
+// ConnidsVerifMonoNow is monotime.Now() (the clock of the generator's expiries).
+func ConnidsVerifMonoNow() int64 { return int64(monotime.Now()) }
+
 func ConnidsVerifViewOf(c *Conn) ConnidsVerifView {
 	v := ConnidsVerifView{
 		Mgr:               connidsVerifMgrStateOf(c.connIDManager),
